@@ -116,7 +116,7 @@ pub fn history(rec: &mut Recorder, inp: &Input, arm: Arm, bs: usize, k_next: Opt
     let mut seq = build_seq::<A, U32>(&inp.ranks, 0);
     // every third scanner works on a sequence that was already configured for one or two SHORTER motifs
     // (the way one striped sequence is scanned with several motifs), every seventh for a longer one
-    let hsel = inp.ranks.len() + m + bs;
+    let hsel = (inp.ranks.len() + m).wrapping_add(bs % 1009);
     if hsel % 3 == 0 && m >= 3 {
         seq.configure_wrap(1 + hsel % (m - 2));
         if hsel % 2 == 0 { seq.configure_wrap(m - 2); }
@@ -133,7 +133,7 @@ pub fn history(rec: &mut Recorder, inp: &Input, arm: Arm, bs: usize, k_next: Opt
     let rows = (l + 31) / 32;
     let d8: Vec<Vec<u8>> = { let dm = pssm.to_discrete(); (0..m).map(|i| dm.matrix()[i].to_vec()).collect() };
     let cfg = json!({"ev":"scan_new","arm":arm.name(),"K":KK,"seq":inp.ranks,"pssm":inp.pssm,"thr":inp.thr,"thr_kind":inp.thr_kind,
-                     "bs":bs,"L":l,"M":m,"rows":rows,"tag":tag,"pssm8":d8});
+                     "bs": if bs > (1 << 30) { -1 } else { bs as i64 },"L":l,"M":m,"rows":rows,"tag":tag,"pssm8":d8});
     let created = guarded(|| {
         let mut sc = Scanner::new(&pssm, &seq);
         sc.threshold(thr).block_size(bs);
@@ -481,6 +481,10 @@ pub fn record_c03(rec: &mut Recorder, seed: u64, thorough: bool) {
         if l < 4000 || thorough {
             history(rec, &inp, Arm::all()[(kind + 1) % 3], bs2, Some(k), kind % 3 == 0, "max");
             history(rec, &inp, arm, bs2, Some(0), false, if kind % 2 == 0 { "max_by_ref" } else { "max" });
+        }
+        if l > 32 && l < 4000 {
+            // "one block": the largest block size there is
+            history(rec, &inp, arm, usize::MAX, Some(k.min(2)), false, "max");
         }
         if l < 4000 && nqual >= 2 {
             // permissive threshold, some hits consumed (so that others stay buffered), threshold raised, then the best hit
